@@ -2,6 +2,7 @@ package sim
 
 import (
 	"bytes"
+	"errors"
 	"fmt"
 	"net"
 	"time"
@@ -9,6 +10,7 @@ import (
 	"github.com/ethereum/go-ethereum/common/hexutil"
 	"github.com/ethereum/go-ethereum/p2p/enode"
 	"github.com/zen-eth/shisui/portalwire"
+	"github.com/zen-eth/shisui/storage"
 )
 
 // C08 — FINDCONTENT yields exactly the stored bytes, else closer peers, in one packet.
@@ -51,6 +53,9 @@ func genC08(r *prng) *plan {
 		who := int64(r.intn(2))
 		if r.chance(30) {
 			p.Ops = append(p.Ops, opSpec{K: "askmissing", N: []int64{who, int64(r.u64() >> 1)}})
+		} else if r.chance(12) {
+			// the responder's disk fails the read behind this request
+			p.Ops = append(p.Ops, opSpec{K: "askreadfault", N: []int64{who, int64(r.intn(nkeys))}})
 		} else {
 			p.Ops = append(p.Ops, opSpec{K: "ask", N: []int64{who, int64(r.intn(nkeys))}})
 		}
@@ -74,7 +79,9 @@ func runC08(seed uint64) {
 	w.res.Class = map[bool]string{true: "faults", false: "fault-free"}[faults]
 	rv, av, pv := versionSets[p.cfg("rv")%3], versionSets[p.cfg("av")%3], versionSets[p.cfg("pv")%3]
 
-	R := w.newBase(nodeCfg{name: "R", port: 9001, key: detKey(seed, 1), versions: rv, maxUtp: 50, capacityMB: 100})
+	rdeco := &decoStore{}
+	R := w.newBase(nodeCfg{name: "R", port: 9001, key: detKey(seed, 1), versions: rv, maxUtp: 50, capacityMB: 100,
+		wrapStore: func(s storage.ContentStorage) storage.ContentStorage { rdeco.inner = s; return rdeco }})
 	rp := R.newPlainProto(portalwire.History)
 	A := w.newBase(nodeCfg{name: "A", port: 9002, key: detKey(seed, 2), versions: av, maxUtp: 50, capacityMB: 100})
 	ap := A.newPlainProto(portalwire.History)
@@ -141,6 +148,21 @@ func runC08(seed uint64) {
 				w.net.heal()
 			}()
 			w.res.Faults["partition"]++
+		case "askreadfault":
+			key := keys[op.n(1)]
+			if key == nil {
+				continue
+			}
+			want := model[string(key)]
+			rdeco.failGet = func(k []byte) error {
+				if bytes.Equal(k, key) {
+					w.fault("disk_read_error")
+					return errors.New("input/output error")
+				}
+				return nil
+			}
+			c08AskReadFault(w, P, A, ap, R, op.n(0) == 0, key, want)
+			rdeco.failGet = nil
 		case "ask", "askmissing":
 			var key []byte
 			if op.K == "ask" {
@@ -369,5 +391,53 @@ func c08AskRaw(w *world, P *puppet, R *baseNode, rp *proto, rv, pv []uint8, key,
 		}
 	default:
 		w.violate("C08", "malformed-reply", "reply not decodable: %s", rep.badWhy)
+	}
+}
+
+// c08AskReadFault: the responder holds the key but its disk fails the read. It cannot serve the bytes; what
+// it must not do is hand the asker other bytes as the content (an empty item, say): no answer, an empty
+// reply or closer peers are all it can honestly give.
+func c08AskReadFault(w *world, P *puppet, A *baseNode, ap *proto, R *baseNode, real bool, key, want []byte) {
+	if real {
+		var res any
+		ok, err := w.call("findcontent", 200*time.Second, func() error {
+			var e error
+			res, e = ap.api.FindContent(R.enr(), hexutil.Encode(key))
+			return e
+		})
+		if !ok {
+			w.violate("C08", "call-hung", "FindContent did not return within 200 virtual seconds")
+			return
+		}
+		if v, isContent := res.(*portalwire.ContentInfo); isContent {
+			got, _ := hexutil.Decode(v.Content)
+			if !bytes.Equal(got, want) {
+				w.violate("C08", "wrong-bytes", "the responder's read failed (disk error), yet the asker was handed %d bytes as the content; %d bytes are stored", len(got), len(want))
+			}
+		}
+		w.op("ask real with read fault size=%d -> %T err=%v", len(want), res, err)
+		w.abstract("real readfault")
+		return
+	}
+	var resp []byte
+	ok, err := w.call("rawfind", 30*time.Second, func() error {
+		var e error
+		resp, e = P.talk(R.self(), portalwire.History, encFindContent(key))
+		return e
+	})
+	if !ok {
+		w.violate("C08", "call-hung", "raw FINDCONTENT did not return")
+		return
+	}
+	rep := decContent(resp)
+	w.op("ask raw with read fault size=%d -> %s (%d bytes) err=%v", len(want), rep.kind, len(resp), err)
+	w.abstract("raw readfault %s", rep.kind)
+	switch rep.kind {
+	case "raw":
+		if !bytes.Equal(rep.raw, want) {
+			w.violate("C08", "wrong-bytes", "the responder's read failed (disk error), yet it answered with %d inline bytes as the content; %d bytes are stored", len(rep.raw), len(want))
+		}
+	case "connid":
+		w.violate("C08", "wrong-bytes", "the responder's read failed (disk error), yet it announced a uTP transfer of the content")
 	}
 }
